@@ -42,6 +42,12 @@ def plan(tier, seed):
                       "force": force, "vf": ["lcm", "ref", "random"][i % 3],
                       "agents": int([2, 3, 16, 4, 5, 16, 7, 16][i % 8]) if tier == "quick" else int([2, 3, 64, 5, 128, 7, 256, 11][i % 8]),
                       "env": {"VERIF_X64": "1"}})
+    # the same decision problems in other units (utility and value arrays multiplied by U)
+    for i in range(12 if tier == "quick" else 120):
+        cases.append({"index": 3 * i + (i % 3), "seed": [seed, 22, i], "cfg": "quick" if tier == "quick" else "thorough",
+                      "cfg_over": {"max_T": 3}, "force": {"poison": False, "two_cont_choices": i % 2 == 0, "mixed_discrete": i % 3 == 0, "filters": i % 3 == 0},
+                      "vf": ["lcm", "ref", "random"][i % 3], "unit": [1e-14, 1e290, 1e-30, 1e200][i % 4],
+                      "agents": 16 if tier == "quick" else 64, "env": {"VERIF_X64": "1"}})
     return cases
 
 
@@ -65,11 +71,14 @@ def run_case(case):
     mon = simcheck.Monitors().install()
     try:
         try:
-            model = dsl.build_lcm_model(desc)
+            U = float(case.get("unit", 1.0))
+            model = dsl.build_lcm_model(desc if U == 1.0 else pipeline.scaled_utility_desc(desc, U))
+            if U != 1.0:
+                res["counters"]["unit_scaled_models"] = 1
             mode = case["vf"]
             if mode == "lcm":
                 fsol, _ = pipeline.get_lcm_function(model, "solve")
-                vf = simcheck.vf_arrays(ref, params, "lcm", rng, lcm_solve=fsol)
+                vf = [a_ / U for a_ in simcheck.vf_arrays(ref, params, "lcm", rng, lcm_solve=fsol)]
             else:
                 vf = simcheck.vf_arrays(ref, params, mode, rng, refsol=refsol)
             # "the value arrays in use": the arrays handed over as vf_arr_list, also when the
@@ -86,7 +95,9 @@ def run_case(case):
             import jax.numpy as jnp
 
             df = fsim(dsl.lcm_params(params), initial_states=pipeline.jnp_states(init),
-                      vf_arr_list=[jnp.asarray(a) for a in vf], seed=int(case["seed"][-1]))
+                      vf_arr_list=[jnp.asarray(a * U) for a in vf], seed=int(case["seed"][-1]))
+            if U != 1.0:
+                df = df.assign(value=df["value"] / U)  # back to the reference's units
         except Exception as e:  # noqa: BLE001
             res["violations"].append({"key": pipeline.exc_key(e, "simulate"), "what": pipeline.exc_text(e),
                                       "detail": {"sig": dsl.shape_signature(desc)}})
@@ -104,7 +115,7 @@ def run_case(case):
     for k, v in j["counters"].items():
         res["counters"][k] = res["counters"].get(k, 0) + v
     try:  # W8 (advisory): event trace of the simulate loop against its trace specification
-        tdev = simcheck.check_sim_trace(mon, ref.T, df, init, vf, ref.states)
+        tdev = simcheck.check_sim_trace(mon, ref.T, df, init, [a_ * float(case.get("unit", 1.0)) for a_ in vf], ref.states)
     except Exception:  # noqa: BLE001
         tdev = []
         mon.add("w8_trace_checker_error")
